@@ -111,6 +111,8 @@ var otherVals = []Val{
 	// objects of the fixed prelude (see Build): operands for which instanceof and in do
 	// not end in a TypeError
 	{K: "ref", S: "PF"}, {K: "ref", S: "pfi"}, {K: "ref", S: "pfp"}, {K: "ref", S: "PG"}, {K: "ref", S: "pgi"}, {K: "ref", S: "keyobj"}, {K: "ref", S: "bareproto"},
+	// bound functions: [[HasInstance]] is the target's (15.3.4.5.3)
+	{K: "ref", S: "PFb"}, {K: "ref", S: "PGb"},
 }
 
 var goKinds = []string{"float64", "float32", "int", "int8", "int16", "int32", "int64", "uint", "uint8", "uint16", "uint32", "uint64", "string"}
@@ -423,6 +425,7 @@ func Build(in Input) *Program {
 		FnD("PF", nil), named("PF"), V("pfi", NewE(Id("PF"))), V("pfp", Dot(Id("PF"), "prototype")),
 		FnD("PG", nil), named("PG"), ES(Asg(Dot(Id("PG"), "prototype"), Id("pfi"))), V("pgi", NewE(Id("PG"))),
 		V("bareproto", CallE(Dot(Id("Object"), "create"), &Null{})),
+		V("PFb", CallE(Dot(Id("PF"), "bind"), &Null{})), named("PFb"), V("PGb", CallE(Dot(Id("PG"), "bind"), Id("keyobj"), N(1))), named("PGb"),
 		V("keyobj", ObjL(P("1", N(1)), P("a", N(2)), P("", N(3)), P("NaN", N(4)), P("undefined", N(5)), P("null", N(6)), P("true", N(7)), P("12", N(8)), P("Infinity", N(9)), P("-1", N(10)), P("0", N(11)), P("1e+21", N(12)), P("str", N(13)), P("PF", N(14)))),
 		V("a", valNode(in.A, "a")), V("b", valNode(in.B, "b")),
 	}
